@@ -1,8 +1,11 @@
 package extract
 
 import (
+	"bytes"
 	"fmt"
 	"go/ast"
+	"go/printer"
+	"go/token"
 	"go/types"
 	"regexp"
 	"strings"
@@ -22,7 +25,7 @@ import (
 var c19Keep = regexp.MustCompile(`mutex\.(Lock|Unlock)\(\)|pending\.|\bcomplete\(|completed\.|isCompleted\(\)|` +
 	`executeStage\(|completeStage\(|\.Execute\(|NextStages\(\)|recover\(\)|errHandle|completeHandle\(\)|execFn|` +
 	`Submit\(|panicHandle|\.Exec\(\)|if stage\.IsAsync\(\)|execPool != nil|sm\.err|firstError|completedCallbackFn|stage\.Complete\(\)|` +
-	`stage\.execute\(|sendResponse\(`)
+	`stage\.execute\(|sendResponse\(|Stopped\(\)|ctx\.Done\(\)|p\.tasks <-|reject\(|ctx\.Err\(\)|task\.handle == nil`)
 
 func c19Steps(body *ast.BlockStmt) []string {
 	var out []string
@@ -102,6 +105,18 @@ func c19Steps(body *ast.BlockStmt) []string {
 				stmts(x.Body.List, prefix+"loop:")
 			case *ast.ForStmt:
 				stmts(x.Body.List, prefix+"loop:")
+			case *ast.SelectStmt:
+				for _, cl := range x.Body.List {
+					cc := cl.(*ast.CommClause)
+					if cc.Comm == nil {
+						emit(prefix, "default:")
+					} else {
+						var buf bytes.Buffer
+						_ = printer.Fprint(&buf, token.NewFileSet(), cc.Comm)
+						emit(prefix, "case "+buf.String()+":")
+					}
+					stmts(cc.Body, prefix+"case:")
+				}
 			case *ast.BlockStmt:
 				stmts(x.List, prefix)
 			case *ast.DeclStmt, *ast.IncDecStmt, *ast.BranchStmt, *ast.EmptyStmt:
@@ -209,6 +224,26 @@ func init() {
 			return "", fmt.Errorf("workerPool.execTask not found")
 		}
 		sb.WriteString("def execTaskSteps : List String := " + LeanStrList(c19Steps(et.Body)) + "\n\n")
+		sub := FindFunc(plf, "workerPool", "Submit")
+		if sub == nil {
+			return "", fmt.Errorf("workerPool.Submit not found")
+		}
+		sb.WriteString("def submitSteps : List String := " + LeanStrList(c19Steps(sub.Body)) + "\n\n")
+		var rej []string
+		if fd := FindFunc(plf, "workerPool", "reject"); fd != nil {
+			rej = c19Steps(fd.Body)
+		}
+		sb.WriteString("def rejectSteps : List String := " + LeanStrList(rej) + "\n\n")
+		// Submit tells the task's handler when it does not accept the task: every `return` of a
+		// rejection path is preceded by p.reject(task, …) and reject calls task.panicHandle(err)
+		notifies := false
+		for _, l := range rej {
+			if strings.HasSuffix(l, "task.panicHandle(err)") {
+				notifies = true
+			}
+		}
+		sb.WriteString("/-- `workerPool.Submit` calls the task's handler when it rejects the task (stopped pool / cancelled context) -/\n")
+		sb.WriteString(fmt.Sprintf("def submitRejectNotifies : Bool := %v\n\n", notifies))
 		_, lf, err := ParseFile(repo, "query/context/leaf_execute_context.go")
 		if err != nil {
 			return "", err
